@@ -132,11 +132,14 @@ func runServe(fields []string) string {
 	var outI, outJ, oracles []string
 	for _, item := range strings.Split(fields[3], ";") {
 		a := strings.Split(item, ",")
-		if len(a) != 4 {
+		if len(a) != 7 {
 			continue
 		}
+		// path: what the matcher sees (RawPath if set, else Path); the URL is the one net/http would have built
 		method, host, path, query := a[0], unhx(a[1]), unhx(a[2]), unhx(a[3])
-		req := newReq(method, host, path)
+		urlPath, rawPath := unhx(a[4]), unhx(a[5])
+		req := newReq(method, host, urlPath)
+		req.URL.RawPath = rawPath
 		req.URL.RawQuery = query
 		seen = nil
 		w := newRecWriter()
@@ -171,21 +174,41 @@ func runServe(fields []string) string {
 			if path != refClean(path) {
 				bad("redirect issued for an unclean path (clean form %s)", hx(refClean(path)))
 			}
-			// the Location must lead to the slash-adjusted path, query kept
+			// the Location must lead to the slash-adjusted path, query kept: resolve it (RFC 3986, net/url) against the
+			// URL the client requested, parse the result the way a server parses a request target, and ask the router
+			// where that request goes: directly to the route whose trailing-slash candidate caused the redirect
 			loc := w.h.Get("Location")
-			base := &url.URL{Path: path, RawQuery: query}
+			resI += ":" + hx(loc) // compared with the model's Location; the specification side states kind and code only
+			wire := rawPath
+			if wire == "" {
+				wire = (&url.URL{Path: urlPath}).EscapedPath()
+			}
+			base, berr := url.Parse("http://origin.test" + escapeWire(wire))
 			ref, perr := url.Parse(loc)
-			if perr != nil {
-				bad("Location %q does not parse: %v", loc, perr)
+			if perr != nil || berr != nil {
+				bad("Location %q does not parse: %v %v", loc, perr, berr)
 			} else {
 				got := base.ResolveReference(ref)
-				adj := path + "/"
-				if len(path) > 1 && strings.HasSuffix(path, "/") {
-					adj = path[:len(path)-1]
+				adj := urlPath + "/"
+				if len(urlPath) > 1 && strings.HasSuffix(urlPath, "/") {
+					adj = urlPath[:len(urlPath)-1]
 				}
-				wantURL := &url.URL{Path: adj, RawQuery: query}
-				if got.EscapedPath() != wantURL.EscapedPath() || got.RawQuery != query || got.Host != "" || got.Scheme != "" {
-					bad("Location %q resolves to %q, want %q", loc, got.String(), wantURL.String())
+				if got.Host != "origin.test" || got.Scheme != "http" || got.Fragment != "" {
+					bad("Location %q leaves the origin: %q", loc, got.String())
+				} else if got.Path != adj || got.RawQuery != query {
+					bad("Location %q resolves to path %q query %q, want %q %q", loc, got.Path, got.RawQuery, adj, query)
+				} else if u2, err2 := url.ParseRequestURI(got.RequestURI()); err2 != nil {
+					bad("Location %q resolves to an unparsable target %q", loc, got.RequestURI())
+				} else {
+					m2 := u2.Path
+					if u2.RawPath != "" {
+						m2 = u2.RawPath
+					}
+					r1, tsr1 := f.Reverse(method, host, path)
+					r2, tsr2 := f.Reverse(method, host, m2)
+					if r1 == nil || !tsr1 || r2 != r1 || tsr2 {
+						bad("following Location %q (target %q) does not reach the redirecting route directly: before=%s after=%s", loc, m2, lkResult(r1, tsr1), lkResult(r2, tsr2))
+					}
 				}
 			}
 		default:
@@ -230,6 +253,28 @@ var serveMethods = []string{"GET", "GET", "POST", "PUT", "DELETE", "OPTIONS", "C
 // special segments exercising the Location escaping (decoded forms; the request is built with URL.Path)
 var oddSegs = []string{"https:evil.com", "a:b", "a b", "a%b", "a#b", "é", "a?b", "x;y", "a+b", "a&b=c", "{x}", "*z",
 	":id", "::", ":", "a:", "?q", "#f", "%41", "%", "%2F", "..a", "...", "a..", "~", "@", "=", "a@b:c", "//x"[1:], "javascript:alert(1)", " ", "\\x"}
+
+// raw (wire) segments: escapes the default encoder would not produce, and bytes that are not a valid encoding
+var rawSegs = []string{"%2E%2E", "%2e%2E", "%2E", "a%2Fb", "%2F", "\xc3\xa9", "caf\xc3\xa9", "a<b", "a\"b", "a#b", "%41", "a%20b", "%7Bx%7D",
+	"a%3Ab", "%3Aid", "a|b", "a^b", "x%C3%A9", "a%25b", "{x}", "a`b", "%2e%2e%2Fq"}
+
+// escapeWire: the request target as a client would put it in a URL string: bytes that cannot appear in a URL are
+// percent-encoded, the target's own escapes are kept
+func escapeWire(s string) string {
+	const upperhex = "0123456789ABCDEF"
+	var sb strings.Builder
+	for i := 0; i < len(s); i++ {
+		c := s[i]
+		if c <= ' ' || c >= 0x7f || strings.IndexByte("\"<>\\^`{|}#?", c) >= 0 {
+			sb.WriteByte('%')
+			sb.WriteByte(upperhex[c>>4])
+			sb.WriteByte(upperhex[c&15])
+		} else {
+			sb.WriteByte(c)
+		}
+	}
+	return sb.String()
+}
 
 func genServe(r *Rng, tier string, n int, emit func(string)) {
 	for c := 0; c < n; c++ {
@@ -291,7 +336,31 @@ func genServe(r *Rng, tier string, n int, emit func(string)) {
 			if cr.Chance(20) {
 				query = Pick(cr, []string{"q=1", "q=1&r=a/b", "x=%2F&y=%C3%A9", "a=b?c"})
 			}
-			reqs = append(reqs, m+","+host+","+hx(path)+","+hx(query))
+			// the wire form of the target: usually the default encoding of the decoded path; sometimes a raw target with
+			// its own escapes (encoded dots and slashes, lower-case hex, needless escapes) and bytes that are not a valid
+			// encoding (raw non-ASCII, '<', '"', '#'), parsed exactly as net/http parses a request target
+			target := (&url.URL{Path: path}).EscapedPath()
+			if x := cr.Intn(10); x < 2 && path != "*" {
+				segs := strings.Split(strings.TrimSuffix(path, "/"), "/")
+				for k := 1; k < len(segs); k++ {
+					if cr.Chance(45) {
+						segs[k] = Pick(cr, rawSegs)
+					}
+				}
+				target = strings.Join(segs, "/")
+				if strings.HasSuffix(path, "/") || cr.Chance(30) {
+					target += "/"
+				}
+			}
+			u, perr := url.ParseRequestURI(target)
+			if perr != nil || path == "*" {
+				u = &url.URL{Path: path}
+			}
+			matched := u.Path
+			if u.RawPath != "" {
+				matched = u.RawPath
+			}
+			reqs = append(reqs, m+","+host+","+hx(matched)+","+hx(query)+","+hx(u.Path)+","+hx(u.RawPath)+","+hx(u.EscapedPath()))
 		}
 		emit("serve\t" + cfg + "\t" + strings.Join(routes, ";") + "\t" + strings.Join(reqs, ";"))
 	}
